@@ -41,10 +41,12 @@ def party(el, userId="orcid", email=True, given=True):
         u = Node("userId", content=val)
         u.add_attribute("directory", directory)
         return u
-    if userId in ("other-directory", "orcid+other"):
-        p.add_child(uid("https://example.org/dir", "u-17"))
-    if userId in ("orcid", "orcid+other"):
-        p.add_child(uid("https://orcid.org", "0000-0001-2345-6789"))
+    # several user ids in every order: "a+b" lists a before b
+    for part in ([] if userId == "none" else userId.split("+")):
+        if part == "orcid":
+            p.add_child(uid("https://orcid.org", "0000-0001-2345-6789"))
+        else:
+            p.add_child(uid("https://example.org/dir", "u-17"))
     if el in ("associatedParty", "personnel"):
         p.add_child(Node("role", content="principalInvestigator"))
     return p
